@@ -49,6 +49,12 @@ CLAIMS = {
             "guard, the one-increment-per-consumed-line pairing of line_index, that all code lines reach add_testcase_body and end_testcase "
             "builds the TestCase from the parser state, and that read_file normalises CRLF.",
             "Not decided: title selection, which info strings count as a language, the shape classification of fence lines beyond the threshold.", "§4 C06"),
+    "C08": ("Decides by finite case analysis of ExpectationMaker::extract (capture count x empty kind capture) that an empty kind always means "
+            "`equal`, that the expression is the whole line or capture 0 accordingly and that no capture index is out of range; parses the "
+            "grammar template built by to_expectation_regex and checks its structure (anchors, lazy expression, optional parenthesised "
+            "modifier, kind alternatives incl. empty, quantifier class); checks that the reader and writer quantifier tables are mutually "
+            "inverse in both the equal and the kinded form, and that kind() literals re-resolve to the same maker.",
+            "Not decided: equivalence of the re-parsed expression text for escaped glob/regex renderings; Unicode behaviour of \\s.", "§4 C08"),
 }
 
 PENDING = "static rules for this property are designed (DESIGN.md §4) but not yet implemented in this revision"
